@@ -1,7 +1,7 @@
 (* C14, AArch64: [a64_compile_asm_wf] (asm_wf cs = None for every program inside the boolean guards of
    Sem/WfGuard64.v) and [a64_compile_code_small].
    From the per-method lemmas of Proof/A64WfAll.v through the generic theorem Proof/CodegenForallLinP.v (every piece
-   of code_statement's output comes from a back-end method; bounds 4096 / 1024 of Sem/WfGuard64.v), the label
+   of code_statement's output comes from a back-end method; bounds 4096 - from the capacity, tfp_cap - and 1024 - a guard - of Sem/WfGuard64.v), the label
    theorems of Proof/LabelThms.v (labels once, references defined) and the size theorem of C19 (Proof/SizeA64.v:
    at most 28 + 85 * cg_bound_defs instructions) in its two-weight refinement Proof/SizeA64Fine.v (28 + cg_fine_defs 14 74
    instructions of 4 bytes each - below the reach of B.cond / ADR under reach_guard_a64). *)
@@ -19,6 +19,14 @@ Local Open Scope list_scope.
 Lemma hash_same l : is_hash_label l = Sem.X86Wf.is_hash_label l.
 Proof. reflexivity. Qed.
 
+(* fewer than 281 positions have a temporary (26 registers, 255 spill slots) *)
+Lemma tfp_cap q t : temporary_from_position q = Ok t -> (q < 2 * A64_SUBST_MAX)%N.
+Proof.
+  unfold temporary_from_position, A64_SUBST_MAX. change RESERVED with 4%N. change REGISTER_NUM with 30%N. change SPILL_NUM with 256%N.
+  change RESERVED_SPILLS with 1%N. destruct (N.ltb_spec (q + 4) 30); [intros _; lia|].
+  destruct (N.ltb_spec (q + 4 - 30 + 1) 256); [intros _; lia|discriminate].
+Qed.
+
 Section Prog.
 Variable p : prog.
 Hypothesis PN : plain_names p = true.
@@ -26,7 +34,7 @@ Hypothesis PT : plain_types p = true.
 Hypothesis XS : xtors_le A64_XTORS_MAX (ptypes p) = true.
 
 Lemma a64_translate_W defs lc code lc' :
-  forallb (fun d => lin_check (sigs_of p) (dctx d) (dbody d) && stmt_immP A64_SUBST_MAX any_lit (dbody d)) defs = true ->
+  forallb (fun d => lin_check (sigs_of p) (dctx d) (dbody d) && stmt_immP any_lit (dbody d)) defs = true ->
   (forall d, In d defs -> In d (pdefs p)) ->
   translate a64_backend (ptypes p) defs lc = Ok (code, lc') -> W code.
 Proof.
@@ -64,6 +72,7 @@ Proof.
   - reflexivity.
   - exact (X86WfAll.L_def_p p PN).
   - exact (X86WfAll.L_type_p p PT).
+  - exact tfp_cap.
   - intros d Hd. destruct (lookup_label_def p d (SUB d Hd)) as [ps E]. exact (X86WfAll.L_def_p p PN _ _ E).
 Qed.
 End Prog.
@@ -172,7 +181,7 @@ Proof.
   match goal with E0 : rbind _ _ = Ok _ |- _ => rename E0 into ES end. rstep ES. rename E0 into E1.
   match type of ES with Ok ?t = Ok ?v => assert (EV : v = t) by congruence; subst v; clear ES end.
   unfold imm_guard_a64, imm_guardP in IG. apply andb_true_iff in IG as [IG XS].
-  assert (GD : forallb (fun d => lin_check (sigs_of p) (dctx d) (dbody d) && stmt_immP A64_SUBST_MAX any_lit (dbody d)) (pdefs p) = true).
+  assert (GD : forallb (fun d => lin_check (sigs_of p) (dctx d) (dbody d) && stmt_immP any_lit (dbody d)) (pdefs p) = true).
   { apply forallb_forall. intros d Hd. unfold lin_check_prog in LIN. rewrite forallb_forall in LIN, IG.
     specialize (LIN d Hd). specialize (IG d Hd). unfold lin_check_def in LIN. rewrite LIN, IG. reflexivity. }
   clear LIN IG.
